@@ -34,6 +34,8 @@ CLAIMS = {
             'trusted: as C06; compute_* abstract; get_imported_fixtures memo and eviction not under contract', '§5-C07'),
     'C08': ('proof', 'Order independence is a lemma over the proved operational spec of resolution: two registration orders that only interleave files differently (the only effect a scan schedule has on definitions[name]) give the same answer, provided the three first-come-first-served choices agree (import branch, several plugins, several third-party packages defining the name) — these hypotheses name exactly the order-dependent sites; hash-ordered loops under contract are verified for every enumeration order. Known findings: F-01 (import branch), F-16b (cycle graph).',
             'as C01; the model of a schedule (interleaving of per-file sub-sequences) is taken from the property text', '§5-C08'),
+    'C11': ('proof', 'Function level: every real function under contract (all units, ~70 functions incl. analysis, resolution, references, completion filter, CLI counts, import closure, cycle detection, line/column arithmetic) is verified panic-free for ALL inputs without idealising machine arithmetic: index bounds, usize/u32 overflow and underflow, unwrap on Some only; the byte-slicing string utilities are checked by Kani harnesses on the real file (bounded by string length; labelled bounded in the evidence, not counted as proved for all inputs). Four genuine panics found this way were repaired (F-11a-d).',
+            'process liveness, handler bodies in providers/, scanner.rs and rayon isolation are not covered; string functions only up to the stated byte bound', '§5-C11'),
     'C12': ('proof', 'Termination: every loop and recursion of every function under contract (all units) carries a decreases measure that Verus discharges — the conftest walk (path length), all for-loops over vectors / hash enumerations. Lock discipline: the mutators are verified in &mut-receiver form with write operations of the DashMap shim taking &mut self, so Rust\'s borrow checker (run by Verus) rejects a write while a guard of the same map is alive and any self-call while a write guard is alive; a lexical lint covers the remaining pattern (another map touched inside a get_mut guard). Read-under-read nesting is argued in DESIGN, not proved.',
             'no thread model; compute_fixture_cycles, get_imported_fixtures recursion, providers/ and scanner.rs are not under contract', '§5-C12'),
     'C14': ('proof', 'Closure part: get_imported_fixtures / compute_imported_fixtures / is_fixture_imported_in_file (mutually recursive through the visited set) are proved to terminate on every import graph incl. cycles and self imports (measure: readable files not yet visited), to return only names of the import closure of the file (star imports and pytest_plugins entries transitively, explicit imports by name) and, for a top-level call under an exact memo, exactly that closure (DFS completeness); memo discipline proved (only top-level results are stored, keyed by content hash + version). Module resolution, import extraction from the AST and venv/plugin discovery are abstract or not covered.',
